@@ -21,7 +21,7 @@ Choices(k) == CASE k = "m" -> {"{}", "{x}", "tok"}
                 [] k = "v" -> {"{}", "|x|"}
                 [] k = "verb" -> {"|x|", "+{+"}
 Contexts == {"top", "in-textbf", "in-math", "arg-of-emph", "arg-of-frac", "arg-of-sqrt", "arg-of-accent", "in-item"}
-Bodies == IF IsEnv THEN {"", "x", "x & y \\\\ z"} ELSE {"-"}
+Bodies == IF IsEnv THEN {"", "x", "x & y \\\\ z", "x \\\\ y & z", " & x \\\\ a & b & c", "\\\\ a & b"} ELSE {"-"}
 
 VARIABLES fill, ctx, body
 vars == <<fill, ctx, body>>
